@@ -47,6 +47,7 @@ class Check:
         self.extra: dict = {}
         self.t0 = time.time()
         self.errors: list[str] = []
+        self.locals_of = None       # callable(site) -> local names (not parameters) of the function at that site
         self.gate = None            # callable(site) -> set of new vocabulary of the function at that site
         self.firm = False           # property-wide: violations are decided positively (no vocabulary gate)
 
@@ -70,10 +71,20 @@ class Check:
     def expect_term(self, found, accepted, oid, rule, site, construct, why_ok='', why_bad='', extra_ok=True):
         """canonical-term equality with a three-valued outcome: equal to an accepted form -> discharged; different but written
         with the operations of the accepted forms -> violated; written with operations the accepted forms never use -> inconclusive"""
-        from .match import within_vocabulary
+        from .match import within_vocabulary, _walk_term
         if found in accepted and extra_ok:
             self.ok(oid, rule, site, construct, why_ok)
-        elif found in accepted or within_vocabulary(found, accepted):
+            return
+        # a local of the function that is left in the found term although no accepted form mentions it was not resolved to a value
+        # (bound by a loop, by unpacking a table entry, or more than once): the comparison would compare names
+        if found not in accepted and getattr(self, 'locals_of', None) is not None:
+            names = {x[1] for x in _walk_term(found) if isinstance(x, tuple) and len(x) == 2 and x[0] == 'name' and isinstance(x[1], str)}
+            acc_names = {x[1] for a in accepted for x in _walk_term(a) if isinstance(x, tuple) and len(x) == 2 and x[0] == 'name' and isinstance(x[1], str)}
+            loose = sorted((names - acc_names) & self.locals_of(site))
+            if loose:
+                self.unsure(oid, rule, site, construct, f'the expression is written over the local(s) {", ".join(loose[:3])} that this rule could not resolve to a value; ' + (why_bad or why_ok))
+                return
+        if found in accepted or within_vocabulary(found, accepted):
             self.bad(oid, rule, site, construct, why_bad or why_ok)
         else:
             self.unsure(oid, rule, site, construct, 'the expression uses operations outside the vocabulary of the accepted forms; ' + (why_bad or why_ok))
